@@ -44,14 +44,15 @@ type seed struct {
 }
 
 type decoder struct {
-	name    string
-	fn      func([]byte) error
-	cheap   bool // small inputs, fast
-	sweep3  bool // gets the all-3-byte-strings sweep in the thorough tier
-	heavy   bool // variant of another decoder: large seeds only in the thorough tier
-	notCbor bool // seeds are not CBOR (address strings / raw Shelley address bytes)
-	seeds   []seed
-	post    func([]byte) []byte // optional structure-aware fix-up applied to emb/* variants (Byron CRC)
+	name      string
+	fn        func([]byte) error
+	cheap     bool // small inputs, fast
+	sweep3    bool // gets the all-3-byte-strings sweep in the thorough tier
+	heavy     bool // variant of another decoder: large seeds only in the thorough tier
+	smallOnly bool // variant of another decoder: seeds above quickFullSeed are never used
+	notCbor   bool // seeds are not CBOR (address strings / raw Shelley address bytes)
+	seeds     []seed
+	post      func([]byte) []byte // optional structure-aware fix-up applied to emb/* variants (Byron CRC)
 }
 
 var (
@@ -92,10 +93,10 @@ type eraFix struct {
 var fixturesCache []*eraFix
 
 type eraFixJSON struct {
-	Name                            string
-	BlkType, TxType                 uint
-	Block, Big, Header              []byte
-	Txs, Bodies, Outs, Aux, Addrs   [][]byte
+	Name                          string
+	BlkType, TxType               uint
+	Block, Big, Header            []byte
+	Txs, Bodies, Outs, Aux, Addrs [][]byte
 }
 
 // fixtures cuts the seeds out of the repository's block fixtures. The supervisor does the
@@ -542,7 +543,7 @@ func protocolDecoders(fx []*eraFix) []*decoder {
 		{"localstatequery.NewMsgFromCbor", localstatequery.NewMsgFromCbor, 11, []msgSeed{
 			{0, A(U(0), point())}, {1, A(U(1))}, {2, A(U(2), U(1))},
 			{3, A(U(3), A(U(0), A(U(0), A(U(6), A(U(1))))))}, {3, A(U(3), A(U(1)))}, {3, A(U(3), A(U(0), A(U(2), A(U(1)))))},
-			
+
 			{4, A(U(4), A(U(5), M(U(1), B(hash28))))}, {5, A(U(5))}, {6, A(U(6), point())}, {7, A(U(7))},
 			{8, A(U(8))}, {9, A(U(9))}, {10, A(U(10))}, {11, A(U(11))},
 		}},
@@ -628,7 +629,7 @@ func allDecoders() []*decoder {
 			_, err := ledger.NewBlockFromCbor(e.blkType, b)
 			return err
 		}})
-		add(&decoder{name: "ledger.NewBlockFromCbor(skip-body-hash):" + e.name, heavy: true, seeds: bs, fn: func(b []byte) error {
+		add(&decoder{name: "ledger.NewBlockFromCbor(skip-body-hash):" + e.name, smallOnly: true, seeds: bs, fn: func(b []byte) error {
 			_, err := ledger.NewBlockFromCbor(e.blkType, b, lcommon.VerifyConfig{SkipBodyHashValidation: true})
 			return err
 		}})
